@@ -169,6 +169,8 @@ def run_unit(unit_name, repo='/repo', rlimit=None, twins=True, extra_args=(), ta
             continue
         diags.append(d)
     twin_failed = set()
+    twin_rlimit = set()
+    rlimit_fns = []
     for d in diags:
         msg = d['message']
         kind = None
@@ -186,7 +188,18 @@ def run_unit(unit_name, repo='/repo', rlimit=None, twins=True, extra_args=(), ta
             metas.append((sp, lines[li] if 0 <= li < len(lines) else None))
         if kind is None:
             if 'rlimit' in msg.lower() or 'resource limit' in msg.lower() or 'timed out' in msg.lower():
-                hard.append('solver limit: ' + msg)
+                if any(m is not None and m.twin for _, m in metas):
+                    # the solver gave up trying to prove `false` in a vacuity twin: the twin did not verify
+                    for _, m in metas:
+                        if m is not None and m.twin and m.fn:
+                            twin_failed.add(m.fn)
+                            twin_rlimit.add(m.fn)
+                    continue
+                fnn = None
+                for _, m in metas:
+                    if m is not None and m.fn:
+                        fnn = m.fn
+                rlimit_fns.append((fnn, 'solver limit: ' + msg))
             else:
                 loc = ''
                 for sp, m in metas:
@@ -243,6 +256,12 @@ def run_unit(unit_name, repo='/repo', rlimit=None, twins=True, extra_args=(), ta
         res.failures.append({'unit': unit_name, 'fn': fn, 'label': label or ('%s.%s' % (fn, kind)), 'kind': kind,
                              'props': props, 'message': msg, 'gen_line': gen_line, 'src': src, 'stmt': stmt,
                              'rendered': d.get('rendered', '')[:3000]})
+    # a resource limit hit while Verus was looking for FURTHER errors in a function that already has a definite
+    # failed obligation does not make that failure undecided; a limit with no definite failure does.
+    failed_fns = {f['fn'] for f in res.failures}
+    for fnn, why in rlimit_fns:
+        if fnn is None or fnn not in failed_fns:
+            hard.append(why + (' in %s' % fnn if fnn else ''))
     if hard:
         res.status, res.reason = 'undecided', '; '.join(hard[:4])
         return res
@@ -257,10 +276,9 @@ def run_unit(unit_name, repo='/repo', rlimit=None, twins=True, extra_args=(), ta
             res.reason = 'vacuity: `ensures false` twin verified for %s (contradictory precondition or shim)' % \
                 ', '.join(sorted(res.twins_bad))
             return res
-    expected_errors = len(res.failures) + len(twin_failed)
     if res.failures:
         res.status = 'failed'
-    elif res.n_errors > len(twin_failed):
+    elif res.n_errors > len(twin_failed) + len(twin_rlimit) + len(rlimit_fns):
         res.status, res.reason = 'undecided', 'verus reports %d errors but %d twin failures were classified' % (
             res.n_errors, len(twin_failed))
     if res.n_verified == 0:
